@@ -22,6 +22,49 @@ CHECKS = {
         design='5 C01, 6'),
 }
 
+CHECKS.update({
+    'C03': dict(
+        technique='symbolic execution of the real Taster on symbolic payload with min/max rows constrained to the true extrema; '
+                  'isclose comparisons decided by z3; all 16 option combinations x limits x modes case-split',
+        text='Bounded symbolic execution of the real validator on generated well-formed plotfiles (incl. scattered, non-monotone '
+             'layouts): for every option combination, level limit and mode the outcome must be "good"; the binary_data comparisons of '
+             'header rows against data extrema are z3 decisions, so acceptance holds for all real-valued payloads.',
+        note=TRUST + 'NaN/Inf payloads are outside for the binary_data option (real arithmetic).',
+        design='5 C03'),
+    'C04': dict(
+        technique='symbolic execution of the real Taster on corrupted SymFS trees; file lengths and box-bound errors are z3 variables '
+                  '(solver-decided regions), corruption sites case-split exhaustively, pairs sampled per kind pair',
+        text='Bounded symbolic execution of the real default validation on plotfiles damaged by every corruption operator at every site '
+             '(singly, and in pairs per pair of kinds): symbolic file length S != natural covers every truncation and extension at once, '
+             'box-bound errors are symbolic beyond the tolerance; the verdict must be False without exception (nofail) / an exception (fail). '
+             'Pairs that cancel (layout agrees with the headers again, decided by an independent layout oracle) are vacuous.',
+        note=TRUST + 'A-payload: payload bytes never spell an ASCII FAB header. Inserted/removed byte counts and offset shifts are enumerated.',
+        design='5 C04'),
+    'C05': dict(
+        technique='symbolic execution of the real Colander on symbolic payload and symbolic min/max tokens; output parsed by an independent '
+                  'reader and compared word-for-word (identity) with the pure select_fields operation; real Taster run on the output',
+        text='Bounded symbolic execution of the real colander: for every generated structure x ordered variable selection x level limit the '
+             'output tree must parse as a well-formed plotfile, be accepted by the real validator, and hold exactly the kept words (identity), '
+             'header numbers and restricted min/max rows.',
+        note=TRUST + 'Selections with duplicate names and allow_missing=False are outside.',
+        design='5 C05'),
+    'C15': dict(
+        technique='symbolic execution of the real level iterators on symbolic payload; the execution order of the per-file tasks is a '
+                  'symbolic schedule (z3 choice variables, every order a path)',
+        text='Bounded symbolic execution of list(pck[f][lv]) and pck[f][lv].iter(sel): every box exactly once with its exact words '
+             '(multiset keyed by word identity), for every field selector form, and for every execution order of the per-file read tasks.',
+        note=TRUST + 'Task atomicity is justified by C12\'s disjoint-write-set check (these tasks only read).',
+        design='5 C15'),
+    'C20': dict(
+        technique='symbolic execution of the real Taster followed by the real reader on corrupted / byte-edited SymFS trees; implication '
+                  'checked per accepting path against an independent scan of the tree',
+        text='On every explored path where the real default validation accepts (hundreds of accepting paths per run: whitespace/prefix edits, '
+             'offsets into the own header prefix, cancelling pairs), every box is read through the real indexing interface and must have the declared '
+             'shape and the words following the FAB header that names its index range.',
+        note=TRUST + 'A-payload as in C04; boxes whose FAB header is followed by opaque (non-model) bytes are skipped.',
+        design='5 C20'),
+})
+
 NOT_YET = {}
 
 ALL = ['C%02d' % i for i in range(1, 21)]
